@@ -103,6 +103,81 @@ def build(variant='plain'):
     return exe
 
 
+# ---------------------------------------------------------------- the repository's own suite, recorded
+SUITE_WRAPPED = [
+    '_ZN4ASAM3CMP7Encoder4initERKNS0_11DataContextE', '_ZN4ASAM3CMP7Encoder9putPacketERKNS0_6PacketE',
+    '_ZN4ASAM3CMP7Encoder14getEncodedDataEv', '_ZN4ASAM3CMP7Encoder6encodeERKNS0_6PacketERKNS0_11DataContextE',
+    '_ZN4ASAM3CMP7Encoder11setDeviceIdEt', '_ZN4ASAM3CMP7Encoder11setStreamIdEh', '_ZN4ASAM3CMP7Encoder7restartEv',
+    '_ZN4ASAM3CMP7Decoder6decodeEPKvm', '_ZN5TECMP7Decoder6DecodeEPKvm',
+    '_ZN4ASAM3CMP6Status6updateERKNS0_6PacketE', '_ZN4ASAM3CMP6Status16removeDeviceByIdEt', '_ZN4ASAM3CMP6Status5clearEv',
+]
+
+
+def build_suite():
+    """The repository's gtest suite linked with the recorder harness/suite/suite_wrap.cpp (ld --wrap on the public entry
+    points of Encoder / Decoder / Status / TECMP::Decoder).  Returns the binary, or None when it cannot be built
+    (a changed signature of a wrapped function, a test that no longer compiles): the stage is then skipped and says so -
+    it is an additional source of recorded behaviours, never the only stage of a check."""
+    h = hashlib.sha256()
+    files = sorted(glob.glob(os.path.join(REPO, 'src', '*.cpp')) + glob.glob(os.path.join(REPO, 'tests', '*')) +
+                   glob.glob(os.path.join(REPO, 'include', '**', '*.h'), recursive=True) +
+                   glob.glob(os.path.join(HARNESS, 'suite', '*.cpp')) + [os.path.join(HARNESS, x) for x in ('common.cpp', 'common.h', 'ops.h')])
+    for f in files:
+        h.update(f.encode())
+        with open(f, 'rb') as fh:
+            h.update(fh.read())
+    d = os.path.join(OUT, 'build', 'suite-' + h.hexdigest()[:16])
+    exe = os.path.join(d, 'suite')
+    if os.path.exists(exe):
+        return exe
+    if os.path.exists(os.path.join(d, 'FAILED')):
+        return None
+    for old in glob.glob(os.path.join(OUT, 'build', 'suite-*')):
+        if time.time() - os.path.getmtime(old) > 3600:
+            shutil.rmtree(old, ignore_errors=True)
+    tmp = d + '.tmp%d' % os.getpid()
+    os.makedirs(tmp, exist_ok=True)
+    srcs = sorted(glob.glob(os.path.join(REPO, 'src', '*.cpp'))) + sorted(glob.glob(os.path.join(REPO, 'tests', '*.cpp'))) + \
+        [os.path.join(HARNESS, 'common.cpp')] + sorted(glob.glob(os.path.join(HARNESS, 'suite', '*.cpp')))
+    t0 = time.time()
+
+    def comp(src):
+        obj = os.path.join(tmp, os.path.basename(os.path.dirname(src)) + '_' + os.path.basename(src) + '.o')
+        return src, sh('g++ -std=c++17 -O1 -g -D%s -I%s/include -I%s -c %s -o %s' % (GUARD, REPO, HARNESS, src, obj))
+
+    err = None
+    with ThreadPoolExecutor(NCPU) as ex:
+        for src, r in ex.map(comp, srcs):
+            if r.returncode != 0 and err is None:
+                err = 'compile failed: %s\n%s' % (src, r.stdout[-1500:])
+    if err is None:
+        r = sh('g++ -g %s/*.o %s -lgmock -lgtest -lpthread -o %s/suite && rm -f %s/*.o'
+               % (tmp, ' '.join('-Wl,--wrap=' + m for m in SUITE_WRAPPED), tmp, tmp))
+        if r.returncode != 0:
+            err = 'link failed\n' + r.stdout[-1500:]
+    if err is not None:
+        sh('rm -f %s/*.o' % tmp)
+        open(os.path.join(tmp, 'FAILED'), 'w').write(err)
+        log('the recorded test suite could not be built, its stage is skipped: ' + err.splitlines()[0])
+    try:
+        os.rename(tmp, d)
+    except OSError:
+        shutil.rmtree(tmp, ignore_errors=True)
+    if err is None:
+        log('built the recorded test suite in %.1fs' % (time.time() - t0))
+    return exe if os.path.exists(exe) else None
+
+
+def run_suite(exe, prefix):
+    """Run the wrapped suite; returns {component: trace path}.  A failing test is not this stage's business
+    (the suite's own verdict is the baseline's); whatever was recorded is judged."""
+    for p in glob.glob(prefix + '.*.ndjson'):
+        os.remove(p)
+    e = dict(os.environ, VERIF_SUITE_TRACE=prefix)
+    r = subprocess.run('timeout 600 %s > %s.stdout 2>&1' % (exe, prefix), shell=True, env=e)
+    return {c: '%s.%s.ndjson' % (prefix, c) for c in ('enc', 'dec', 'st') if os.path.exists('%s.%s.ndjson' % (prefix, c))}, r.returncode
+
+
 # ---------------------------------------------------------------- TLC
 def tlc(module, cfg, tag, workers=NCPU, env=None, timeout=3000, heap='8g', extra=''):
     """Run TLC on spec/<module>.tla with spec/cfg/<cfg>; returns (logpath, stats)."""
